@@ -40,6 +40,15 @@ def _helper_of(P, f, call):
                 h = P.ir_lookup_method(f.cls.name, fn.attr) if f.cls.name in P.ir_classes else None
             if h is not None:
                 return h, base
+        # `x._helper(...)` on another object: inlined when exactly one class in scope defines a private method of that name
+        if base not in ("self", "cls"):
+            if mod.relpath.startswith("spydrnet/ir/"):
+                cands = [ci.methods[fn.attr] for ci in P.ir_classes.values() if fn.attr in ci.methods]
+            else:
+                cands = [ci.methods[fn.attr] for ci in mod.classes.values() if fn.attr in ci.methods]
+            cands = [c for c in cands if c.role == "method"]
+            if len(cands) == 1:
+                return cands[0], base
     return None, None
 
 
